@@ -96,13 +96,29 @@ func (e *vsEnv) newStage() {
 
 // settle waits until the stage shows no activity: both channels empty and an
 // unchanged signature of cache states / wait lists / directories for a while
-// vsOldestCmp: unix seconds of the oldest companion file below dir (0: there is none)
+// vsOldestCmp: how far back the companions below dir reach (unix seconds; 0: there is none): the oldest
+// modification time of a companion file, or the oldest (sender-side) time of a file a companion stands
+// for - never in the future, at most a month back - whichever is earlier. Recover reads the receive log
+// back to a day before that.
 func vsOldestCmp(dir string) int64 {
 	var oldest int64
+	now := time.Now()
 	filepath.Walk(dir, func(p string, info os.FileInfo, err error) error {
 		if err == nil && !info.IsDir() && strings.HasSuffix(p, compExt) {
 			if t := info.ModTime().Unix(); oldest == 0 || t < oldest {
 				oldest = t
+			}
+			if c, err := readLocalCompanion(strings.TrimSuffix(p, compExt), ""); err == nil && c != nil && !c.Time.IsZero() {
+				ft := c.Time.Time
+				if ft.After(now) {
+					ft = now
+				}
+				if m := now.Add(-30 * 24 * time.Hour); ft.Before(m) {
+					ft = m
+				}
+				if ft.Unix() < oldest {
+					oldest = ft.Unix()
+				}
 			}
 		}
 		return nil
